@@ -8,7 +8,7 @@ from ..oracle import DIR_SUFFIX, H, canonical_dir_bytes, list_store, parse_dir_b
 RULE = (
     "case = (store class local/base/remote, store algorithm, hand-written store content: files, directory objects incl. shared and "
     "absent children, strays, legacy `.unpacked` directories next to directory objects (a dry run must leave the whole store directory as it was); used set mixing present ids, absent ids, ids under another algorithm name, directory ids; "
-    "shallow/expanding; dry/real; same or separate cache_odb; read-only flag; the same collection repeated in the same process - real run after a dry run, or again after the removed objects were put back); non-trivial = at least one object must go and at "
+    "shallow/expanding; dry/real; same or separate cache_odb (also of the other md5 flavour); read-only flag; the same collection repeated in the same process - real run after a dry run, or again after the removed objects were put back); non-trivial = at least one object must go and at "
     "least one must stay; distinct = hash of the whole configuration"
 )
 ASSUMPTIONS = [
@@ -18,7 +18,7 @@ ASSUMPTIONS = [
     "stray files that do not have the <2>/<rest> layout are outside the property",
 ]
 MONITORS = "independent before/after os.walk listing of the store compared with a set-difference model; return value; byte snapshot of survivors"
-REQUIRED_COUNTERS = ["unpacked_dirs_planted", "repeat_calls_in_one_process", "stale_listing_loaded_before_gc", "path_spelling/trailing-slash", "path_spelling/dotdot", "nfc_nfd_sibling_listings", "used_as/generator", "used_as/iterator", "gc_calls", "expanding_calls_with_used_dir", "dry_calls", "readonly_calls", "real_removals", "foreign_algo_ids_in_used"]
+REQUIRED_COUNTERS = ["listings_from_store_of_other_md5_flavour", "unpacked_dirs_planted", "repeat_calls_in_one_process", "stale_listing_loaded_before_gc", "path_spelling/trailing-slash", "path_spelling/dotdot", "nfc_nfd_sibling_listings", "used_as/generator", "used_as/iterator", "gc_calls", "expanding_calls_with_used_dir", "dry_calls", "readonly_calls", "real_removals", "foreign_algo_ids_in_used"]
 
 
 def _put(root, oid, data, mode):
@@ -140,7 +140,12 @@ def run_shard(ctx):
             if spelling == "dotdot":
                 os.makedirs(os.path.join(pdir, "x"), exist_ok=True)
             odb = env.odb_of_class(cls, opened, hash_name=algo, **({"read_only": True} if read_only else {}))
-            cache_odb = env.odb_of_class("local", croot, hash_name=algo) if separate_cache else None
+            # the listings may come from a store of the other md5 flavour (legacy store collected with the new cache at hand, or the reverse)
+            calgo = algo
+            if separate_cache and algo in ("md5", "md5-dos2unix") and rng.random() < 0.4:
+                calgo = "md5-dos2unix" if algo == "md5" else "md5"
+                res.count("listings_from_store_of_other_md5_flavour")
+            cache_odb = env.odb_of_class("local", croot, hash_name=calgo) if separate_cache else None
 
             # history: under a used directory's id there first sat a well-formed but wrong listing (an interrupted sync), which
             # something loaded; then the genuine object replaced it - gc must expand what is in the store now
